@@ -197,6 +197,8 @@ pub struct Session {
     pub exhaustive: bool,
     t0: Instant,
     pub ops_total: u64,
+    /// coverage floor: class patterns (prefix, or `*infix*`) that MUST have been marked by the end of a generated run
+    pub required: Vec<String>,
 }
 
 impl Session {
@@ -217,6 +219,7 @@ impl Session {
             exhaustive: false,
             t0: Instant::now(),
             ops_total: 0,
+            required: vec![],
         }
     }
     pub fn tier(&self) -> Tier {
@@ -240,6 +243,28 @@ impl Session {
     }
     pub fn note(&mut self, s: impl Into<String>) {
         self.notes.push(s.into());
+    }
+    /// Coverage floor. Declares that some class starting with `pattern` (or containing it, if written `*text*`) must have been
+    /// `mark`ed by the time `finish` runs — for EVERY seed, in every tier (not enforced in replay mode). If it was not, the run
+    /// is vacuous in that respect (e.g. every instantiate failed on both sides and they "agreed"): `finish` exits with status 4
+    /// and `./check` reports the correspondence as broken. Only require classes the unchanged tree reaches with certainty.
+    pub fn require(&mut self, pattern: impl Into<String>) {
+        self.required.push(pattern.into());
+    }
+    fn unmet_requirements(&self) -> Vec<String> {
+        self.required
+            .iter()
+            .filter(|p| {
+                let hit = if p.len() >= 2 && p.starts_with('*') && p.ends_with('*') {
+                    let inner = &p[1..p.len() - 1];
+                    self.classes.iter().any(|c| c.contains(inner))
+                } else {
+                    self.classes.iter().any(|c| c.starts_with(p.as_str()))
+                };
+                !hit
+            })
+            .cloned()
+            .collect()
     }
 
     pub fn begin_case(&mut self, sut: &mut dyn Sut, header: &str) {
@@ -343,8 +368,17 @@ impl Session {
         Ok(res)
     }
 
+    /// Output lines may carry a second part after ` ## `: observations that are OUTSIDE the property's projection (things the
+    /// property does not constrain). Only the part before ` ## ` decides agreement; a difference confined to the second part
+    /// is DRIFT: reported (`DRIFT property=… outside-projection …`), recorded in the evidence, never affects the exit code.
     fn first_disagreement(&self, c: &Case, model: &[String]) -> Option<usize> {
-        (0..c.exp.len()).find(|&i| c.exp[i] != model[i])
+        (0..c.exp.len()).find(|&i| primary_part(&c.exp[i]) != primary_part(model.get(i).map(|s| s.as_str()).unwrap_or("<missing>")))
+    }
+    fn first_drift(&self, c: &Case, model: &[String]) -> Option<usize> {
+        (0..c.exp.len()).find(|&i| {
+            let m = model.get(i).map(|s| s.as_str()).unwrap_or("");
+            primary_part(&c.exp[i]) == primary_part(m) && drift_part(&c.exp[i]) != drift_part(m)
+        })
     }
 
     /// Delta-debugging over op lines (header kept). `sut` re-executes every candidate on the real code.
@@ -429,6 +463,8 @@ impl Session {
         let mut driver_error: Option<String> = None;
         let mut compared_cases = 0u64;
         let mut compared_lines = 0u64;
+        let mut drift_cases = 0u64;
+        let mut drift_samples: Vec<serde_json::Value> = vec![];
         if self.args.tier != Tier::Search {
             let refs: Vec<&Case> = self.cases.iter().collect();
             match self.run_driver(&refs) {
@@ -438,7 +474,12 @@ impl Session {
                         compared_lines += c.exp.len() as u64;
                         if let Some(i) = self.first_disagreement(c, m) {
                             if disagreements.len() < 5 {
-                                disagreements.push(Disagreement { case: c.clone(), step: i, impl_out: c.exp[i].clone(), model_out: m[i].clone() });
+                                disagreements.push(Disagreement { case: c.clone(), step: i, impl_out: c.exp[i].clone(), model_out: m.get(i).cloned().unwrap_or_default() });
+                            }
+                        } else if let Some(i) = self.first_drift(c, m) {
+                            drift_cases += 1;
+                            if drift_samples.len() < 5 {
+                                drift_samples.push(serde_json::json!({"header": c.gen.first(), "op": c.gen.get(i), "impl": drift_part(&c.exp[i]), "model": drift_part(&m[i])}));
                             }
                         }
                     }
@@ -451,12 +492,19 @@ impl Session {
         let mut known_lines: Vec<String> = vec![];
         let mut new_findings: Vec<Finding> = vec![];
         let mut seen_keys = BTreeSet::new();
+        let mut known_hit: BTreeSet<String> = BTreeSet::new();
+        let mut known_more: Vec<String> = vec![];
         for f in std::mem::take(&mut self.findings) {
             if !seen_keys.insert(f.key.clone()) {
                 continue;
             }
-            if known.iter().any(|k| k.status == "finding" && key_matches(&k.key, &f.key)) {
-                known_lines.push(format!("KNOWN-FINDING: property={} {} — {}", prop, f.key, f.what));
+            if let Some(k) = known.iter().find(|k| k.status == "finding" && key_matches(&k.key, &f.key)) {
+                // one line per LISTED finding (the first monitor key that matched it), not one per contract variant
+                if known_hit.insert(k.key.clone()) {
+                    known_lines.push(format!("KNOWN-FINDING: property={} {} — {}", prop, f.key, f.what));
+                } else {
+                    known_more.push(f.key.clone());
+                }
             } else {
                 new_findings.push(f);
             }
@@ -499,15 +547,21 @@ impl Session {
             }
         }
 
+        let unmet = if self.args.replay.is_some() { vec![] } else { self.unmet_requirements() };
         let status = if !new_findings.is_empty() {
             1
         } else if !disagreements.is_empty() {
             2
         } else if driver_error.is_some() && self.args.tier != Tier::Search {
             3
+        } else if !unmet.is_empty() {
+            4
         } else {
             0
         };
+        if !unmet.is_empty() {
+            println!("harness {}: coverage floor NOT met, never reached: {:?}", prop, unmet);
+        }
 
         let report = serde_json::json!({
             "property": prop, "tier": format!("{:?}", self.args.tier).to_lowercase(), "seed": self.args.seed,
@@ -516,13 +570,18 @@ impl Session {
             "distinct_classes": self.classes.len(),
             "classes_sample": self.classes.iter().take(40).collect::<Vec<_>>(),
             "distribution": self.dist, "samples": self.samples, "notes": self.notes, "exhaustive": self.exhaustive,
-            "known_findings_hit": known_lines, "violations": violations,
+            "known_findings_hit": known_lines, "known_findings_more_keys": known_more, "violations": violations,
+            "drift_cases": drift_cases, "drift_samples": drift_samples, "coverage_floor_unmet": unmet, "coverage_floor": self.required,
             "driver_error": driver_error, "status": status,
             "wall_s": self.t0.elapsed().as_secs_f64(),
         });
         std::fs::write(self.args.out.join("report.json"), serde_json::to_string_pretty(&report).unwrap()).expect("write report");
         for l in &known_lines {
             println!("{l}");
+        }
+        if drift_cases > 0 {
+            let d = &drift_samples[0];
+            println!("DRIFT property={} outside-projection cases={} first: op `{}` impl `{}` model `{}`", prop, drift_cases, d["op"].as_str().unwrap_or(""), d["impl"].as_str().unwrap_or(""), d["model"].as_str().unwrap_or(""));
         }
         println!(
             "harness {}: cases={} ops={} compared_lines={} classes={} findings={} disagreements={} status={}",
@@ -551,6 +610,21 @@ pub fn key_matches(pattern: &str, key: &str) -> bool {
         key.starts_with(pre)
     } else {
         pattern == key
+    }
+}
+
+/// the part of an output line that decides agreement (before ` ## `)
+pub fn primary_part(l: &str) -> &str {
+    match l.find(" ## ") {
+        Some(i) => &l[..i],
+        None => l,
+    }
+}
+/// the part of an output line that is outside the property's projection (after ` ## `; empty if none)
+pub fn drift_part(l: &str) -> &str {
+    match l.find(" ## ") {
+        Some(i) => &l[i + 4..],
+        None => "",
     }
 }
 
